@@ -3,6 +3,7 @@ package env
 import (
 	"context"
 	"fmt"
+	"time"
 
 	goat "github.com/avos-io/goat"
 	"github.com/avos-io/goat/vrt/vsched"
@@ -21,11 +22,12 @@ type Direct struct {
 }
 
 type DirectOpts struct {
-	Pipe       PipeOpts
-	ServerOpts []goat.ServerOption
-	DialOpts   []goat.DialOption
-	NoClient   bool
-	NoServer   bool
+	Pipe         PipeOpts
+	ServerOpts   []goat.ServerOption
+	DialOpts     []goat.DialOption
+	NoClient     bool
+	NoServer     bool
+	ServeTimeout time.Duration // >0: the context handed to Serve has this deadline (bounding the connection's lifetime)
 }
 
 // NewDirect builds the topology; the server's Serve runs in its own thread.
@@ -39,6 +41,9 @@ func NewDirect(impl SvcServer, o DirectOpts) *Direct {
 		d.Srv = goat.NewServer("srv", o.ServerOpts...)
 		d.Srv.RegisterService(&ServiceDesc, impl)
 		d.ServeCtx, d.StopServe = context.WithCancel(context.Background())
+		if o.ServeTimeout > 0 {
+			d.ServeCtx, d.StopServe = context.WithTimeout(context.Background(), o.ServeTimeout)
+		}
 		vsched.GoNamed("serve", func() {
 			d.ServeErr = d.Srv.Serve(d.ServeCtx, d.Pipe.B)
 			d.ServeDone = true
